@@ -127,6 +127,8 @@ func lcStmt(b string) string {
 		return "set obj.ttl = 1ms;"
 	case "extend":
 		return "set obj.ttl = 1h;"
+	case "unknown":
+		return "return(deliver_stal);"
 	case "ttl0":
 		return "set beresp.ttl = 0s;"
 	case "shortttl":
